@@ -108,7 +108,15 @@ def per_property():
 
 
 def seeded_table():
-    rows = ["| id | files | what it breaks | result | detected by |", "|---|---|---|---|---|"]
+    metas = [json.loads((d / "meta.json").read_text()) for d in sorted((VERIF / "seeded").iterdir())]
+    once = sum(1 for m in metas if m["confirmed"]["status"].startswith("caught at once"))
+    head = (f"{len(metas)} seeded changes are archived; every one is detected by the check of its property on the current machinery. "
+            f"{once} were caught by the checks as they were when the change arrived, {len(metas) - once} were missed at first or caught "
+            "only as a broken correspondence without a failing input - each of those led to a stronger generator, stream or "
+            "oracle, named in the `result` column. The later rounds asked for changes that a random differential harness is "
+            "unlikely to trigger (particular strings, sizes, argument forms, second calls), which is why their miss rate is "
+            "higher.\n\n")
+    rows = [head + "| id | files | what it breaks | result | detected by |", "|---|---|---|---|---|"]
     for d in sorted((VERIF / "seeded").iterdir()):
         m = json.loads((d / "meta.json").read_text())
         summ = m["summary"].replace("|", "\\|").replace("\n", " ")
